@@ -9,6 +9,8 @@ import (
 	"fmt"
 	"time"
 
+	spectypes "github.com/bloxapp/ssv-spec/types"
+
 	"github.com/bloxapp/ssv/zz_verif/lib/hx"
 	"github.com/bloxapp/ssv/zz_verif/lib/rkit"
 )
@@ -59,6 +61,7 @@ func genC10(run *hx.Run, r *hx.Rng) {
 	}
 	dutyHandlerRuns(run, r)
 	excludedPoint(run)
+	epochSchedules(run, r)
 	for i := 0; done < run.N; i++ {
 		n := 4
 		if i%4 == 3 {
@@ -91,5 +94,48 @@ func genC10(run *hx.Run, r *hx.Rng) {
 		_ = maxR
 		run.Tag("c10-run/" + sc.Name)
 		run.Seen(fmt.Sprintf("c10|n%d|role%d|%s", n, role, sc.Name))
+	}
+}
+
+// epochSchedules: the SAME peer sees the SAME (validator, role, every signer) perform its regular duty at a steady rate over
+// many consecutive epochs — one duty per epoch at a slot that moves around inside the epoch, and a variant with two duties in
+// some epochs (the most the duty-count rule allows) — for the four duty-count-limited roles (attester, aggregator, validator
+// registration, voluntary exit). Every duty is a complete real run (BuildTrace: real controllers / partial-signature traffic),
+// delivered in order at its own time. Oracle: never reject; the one-per-epoch schedule is fault-free and timely, so every
+// message must be accepted (the per-epoch duty counter has to restart at every epoch boundary).
+func epochSchedules(run *hx.Run, r *hx.Rng) {
+	roles := []spectypes.BeaconRole{spectypes.BNRoleAttester, spectypes.BNRoleAggregator, spectypes.BNRoleValidatorRegistration, spectypes.BNRoleVoluntaryExit}
+	epochs, ns := 6, []int{4}
+	if run.Tier == "thorough" {
+		epochs, ns = 9, []int{4, 7}
+	}
+	for _, n := range ns {
+		for ri, role := range roles {
+			for _, two := range []bool{false, true} {
+				if two && run.Tier != "thorough" && (ri+int(run.Seed))%2 == 0 {
+					continue // quick tier: the two-per-epoch variant for half of the roles (alternating with the seed)
+				}
+				w := world(n)
+				name := fmt.Sprintf("epoch-schedule/n%d/role%d/two=%v", n, role, two)
+				c := NewCase(run, w, false, "c10/"+name)
+				e0 := uint64(baseSlot/32) + uint64(r.Intn(3))
+				for e := uint64(0); e < uint64(epochs); e++ {
+					slots := []uint64{(e0+e)*32 + (7*e+uint64(r.Intn(5)))%20}
+					if two && e%2 == 1 {
+						slots = append(slots, slots[0]+2+uint64(r.Intn(9)))
+					}
+					for di, slot := range slots {
+						t := BuildTrace(w, role, slot, scenarios[0], hx.NewRng(run.Seed*977+slot))
+						for k := range t.Msgs {
+							c.Honest = 2
+							c.ValidateSSV(t.Msgs[k].Msg, t.Time(k), Env{Mode: "n"}, fmt.Sprintf("c10:epoch-schedule:role%d:two=%v", role, two))
+						}
+						run.Seen(fmt.Sprintf("c10|epoch-schedule|n%d|role%d|two=%v|epoch+%d|duty%d", n, role, two, e, di))
+					}
+				}
+				c.Honest = 0
+				run.Tag("c10-run/" + name)
+			}
+		}
 	}
 }
